@@ -268,6 +268,10 @@ class Sender:
 
     def _handle_transit(self, receiver_transit):
         ts = self._transit_sender
+        if ts is None:
+            # we are sending text, there is no transit connection to set up:
+            # whatever hints the peer offers are of no use to us
+            return
         ts.add_connection_hints(receiver_transit.get("hints-v1", []))
 
     def _build_offer(self):
